@@ -29,19 +29,6 @@ structure ValidSchemaView (S : SchemaView) : Prop where
   origins : ∀ t ∈ S.types, ∀ f ∈ t.fields,
     ∃ a, S.originOf S.types.length t.name f.name = [a] ∧ (S.field a f.name).isSome = true
 
-/-- The executable form of `ValidSchemaView` (used by the driver's `view-valid` request and by
-`decide` on concrete schemas). -/
-def validSchemaViewB (S : SchemaView) : Bool :=
-  S.types.all (fun t => t.fields.all (fun f =>
-    (isBuiltinScalar f.ty.base || S.isVertexType f.ty.base) &&
-    f.name != TYPENAME &&
-    decide (f.params.map (·.name)).Nodup &&
-    (match S.originOf S.types.length t.name f.name with
-     | [a] => (S.field a f.name).isSome
-     | _ => false) &&
-    (t.name != S.queryType || S.isVertexType f.ty.base))) &&
-  !S.isVertexType TYPENAME && S.isVertexType S.queryType
-
 theorem validSchemaViewB_sound {S : SchemaView} (h : validSchemaViewB S = true) :
     ValidSchemaView S := by
   unfold validSchemaViewB at h
